@@ -6,12 +6,15 @@ Open Scope N_scope.
 
 Lemma ex_log_ok_2_2 : log_ok (ex_log 2 2). Proof. solve_log_ok. Qed.
 Lemma ex_log_ok_3_5 : log_ok (ex_log 3 5). Proof. solve_log_ok. Qed.
+Lemma ex_log_ok_5_1 : log_ok (ex_log 5 1). Proof. solve_log_ok. Qed.
+Lemma ex_log_ok_6_1 : log_ok (ex_log 6 1). Proof. solve_log_ok. Qed.
+Lemma ex_log_ok_7_1 : log_ok (ex_log 7 1). Proof. solve_log_ok. Qed.
 
 Ltac solve_fsop_ok :=
   cbn [fstep_wf sop_ok];
   first [ exact I
         | split; [repeat (apply Forall_cons; [first [exact ex_log_ok_1_1|exact ex_log_ok_2_1|exact ex_log_ok_3_1
-                                            |exact ex_log_ok_2_2|exact ex_log_ok_3_5|exact ex_log_ok_4_1]|]); apply Forall_nil
+                                            |exact ex_log_ok_2_2|exact ex_log_ok_3_5|exact ex_log_ok_4_1|exact ex_log_ok_5_1|exact ex_log_ok_6_1|exact ex_log_ok_7_1]|]); apply Forall_nil
                  | vm_compute; reflexivity ]
         | unfold two64; lia
         | unfold wf_bytes, wf_byte, two31, len; cbn [length]; repeat split; try (repeat constructor; lia); lia ].
@@ -31,3 +34,13 @@ Lemma fh_fault_in_open_ok : fault_hist_ok cfg128 fh_fault_in_open.
 Proof. unfold fh_fault_in_open. solve_fhist_ok cfg128_ok. Qed.
 Lemma fh_misc_ok : fault_hist_ok cfg256 fh_misc.
 Proof. unfold fh_misc. solve_fhist_ok cfg256_ok. Qed.
+Lemma fh_delete_fails_ok : fault_hist_ok cfg128 fh_delete_fails.
+Proof. unfold fh_delete_fails. solve_fhist_ok cfg128_ok. Qed.
+Lemma fh_reset_delete_fails_ok : fault_hist_ok cfg256 fh_reset_delete_fails.
+Proof. unfold fh_reset_delete_fails. solve_fhist_ok cfg256_ok. Qed.
+Lemma fh_list_fails_ok : fault_hist_ok cfg128 fh_list_fails.
+Proof. unfold fh_list_fails. solve_fhist_ok cfg128_ok. Qed.
+Lemma fh_trunc_create_leaves_ok : fault_hist_ok cfg256 fh_trunc_create_leaves.
+Proof. unfold fh_trunc_create_leaves. solve_fhist_ok cfg256_ok. Qed.
+Lemma fh_rotate_create_leaves_ok : fault_hist_ok cfg128 fh_rotate_create_leaves.
+Proof. unfold fh_rotate_create_leaves. solve_fhist_ok cfg128_ok. Qed.
